@@ -25,7 +25,7 @@ def check(model, R, tier):
                     'reversed, invoking each grad_fn at one call site once per node; nodes are keyed by identity; buffers exist before the sweep and are released only after use; '
                     'all 48 ops accumulate with += per operand position under that operand\'s own requires_grad. Values of gradients are not decided.',
         assumptions=['graphs are built only through the catalogued ops (children = operands)', 'CPython semantics of set membership by identity when __eq__/__hash__ are not overridden'],
-        technique='CFG dominance + idiom recognition of the traversal + template rules over the op catalogue')
+        technique='CFG dominance + idiom recognition of the traversal + template rules + partial evaluation of every op wrapper and backward closure over all flag valuations')
 
 
 class _Sub:
